@@ -22,7 +22,9 @@ Nondeterminism, made explicit:
   `view` (`ViewOf`); every statement about a view is made for all of them.
 * `gc` ranges over the map while deleting: `gcOrd` takes the visiting order;
   `gc` (a filter) is what every order computes (`gcOrd_eq_gc`, Props/C10).
-* the RW mutex makes each method one atomic step; the background goroutine of
+* the RW mutex makes each method one atomic step (`gc` takes the write lock once around scan
+  and deletion — extractor fact `resultStore:lock` — so it is modelled atomic; a collector
+  split into scan and eviction without a re-check is `gcScan`/`gcEvictOld`, refuted in Props); the background goroutine of
   `Start` is the event `gc now` at every tick of `time.NewTicker(gcInterval)`.
 -/
 namespace AutoVerif.C10
@@ -110,6 +112,15 @@ def gcOrd (ttl now : Nat) (s : Store) (ord : List String) : Store :=
   ord.foldl (fun s k => match get s k with
     | some v => if expired ttl now v then erase s k else s
     | none => s) s
+
+/-- first half of a *two-phase* collector (not the code as it is; Props/C10
+`gcTwoPhaseOld_loses_fresh`): the keys past their TTL, gathered under the read lock -/
+def gcScan (ttl now : Nat) (s : Store) : List String :=
+  (s.filter (fun p => expired ttl now p.2)).map (·.1)
+
+/-- second half without a re-check: `if _, ok := s.data[k]; ok { delete(s.data, k) }` for every
+listed key, whatever is stored under it by now.  (With the re-check it is `gcOrd`.) -/
+def gcEvictOld (s : Store) (ks : List String) : Store := ks.foldl erase s
 
 /-- `eligiblePostProcessor.PostProcess`: `if res.PipelineExecutionState == 0 && res.Eligible { Add(res) }`,
 one `Add` call per result, in order -/
